@@ -8,8 +8,8 @@ Open Scope nat_scope.
 (* Commit returns exactly one result per Get/Set call issued before it, in call order, the i-th
    carrying operation id i -- for every call sequence (handlers that fail or abort included),
    both implementations. *)
-Theorem C18_results_indexed : forall which s0 cs l,
-  snd (fst (tstep which (fst (trun which (t_begin s0) cs)) TCommit)) = CResults l ->
+Theorem C18_results_indexed : forall which s0 cs cc l,
+  snd (fst (tstep which (fst (trun which (t_begin s0) cs)) (TCommit cc))) = CResults l ->
   length l = count_ops cs /\ forall i r, nth_error l i = Some r -> o_id r = i.
 Proof. exact results_indexed. Qed.
 Print Assumptions C18_results_indexed.
@@ -75,7 +75,7 @@ Print Assumptions C18_live_transaction_holds_the_store.
 
 (* Non-vacuity: Abort followed by Commit (the pattern of a handler-triggered abort) on a store with data. *)
 Example C18_nonvacuous :
-  let cs := [TSet 1 (Some 7) HOk; TGet 1 HAbort; TSet 2 (Some 9) HOk; TAbort; TCommit]%N in
+  let cs := [TSet 1 (Some 7) HOk; TGet 1 HAbort; TSet 2 (Some 9) HOk; TAbort; TCommit false]%N in
   existsb ends cs = true
   /\ usable MemTxn (fst (trun MemTxn (t_begin [(1, 5)]%N) cs)) = true
   /\ tget (t_store (fst (trun MemTxn (t_begin [(1, 5)]%N) cs))) 2%N = None.
